@@ -269,6 +269,9 @@ def filter_args(func, ignore_lst, args=(), kwargs=dict()):
         class_method_sig = inspect.signature(func.__func__)
         self_name = next(iter(class_method_sig.parameters))
         arg_names = [self_name] + arg_names
+        # It is already bound: a keyword argument with the same name (only
+        # possible when 'self' is positional-only) goes to **kwargs.
+        arg_posonlyargs = [self_name] + arg_posonlyargs
     # XXX: Maybe I need an inspect.isbuiltin to detect C-level methods, such
     # as on ndarrays.
 
